@@ -208,6 +208,19 @@ def gen_full(rng, size="small", force=None):
                 {"start_time": rfc(T0 + 1800), "end_time": rfc(T0 + 5400), "scaling_factor": rng.choice([0.5, 1.5, 2.0])},
                 {"start_time": rfc(T0 + 5400), "end_time": rfc(T0 + 9000),
                  "matrix": [[0 if i == j else rng.randint(0, 1200) for j in range(M)] for i in range(M)]}][:rng.randint(1, 2)]}
+            if p(F.get("per_vehicle_matrix", 0.3)):
+                # a list of time-dependent matrices, each for its own vehicles (every vehicle in exactly one)
+                frames2 = lambda: [{"start_time": rfc(T0 + 1200), "end_time": rfc(T0 + 4800),  # noqa: E731
+                                    "scaling_factor": rng.choice([0.5, 1.25, 3.0])}][:rng.randint(0, 1)]
+                vids = [ve["id"] for ve in vehicles]
+                rng.shuffle(vids)
+                cut = rng.randint(1, len(vids))
+                parts = [vids[:cut]] + ([vids[cut:]] if vids[cut:] else [])
+                lst = [dict(inp["duration_matrix"], vehicle_ids=parts[0])]
+                for part in parts[1:]:
+                    lst.append({"vehicle_ids": part, "matrix_time_frames": frames2(),
+                                "default_matrix": [[0 if i == j else rng.randint(0, 900) for j in range(M)] for i in range(M)]})
+                inp["duration_matrix"] = lst
         else:
             inp["duration_matrix"] = mat
         if p(0.8):
@@ -317,7 +330,8 @@ def mutate(rng, inp):
     kinds = ["drop_stop_id", "dup_stop_id", "dangling_precedes", "self_precedes", "cyclic_precedes", "bad_window", "reversed_window",
              "empty_vehicles", "empty_stops", "neg_duration", "neg_capacity", "bad_quantity_type", "group_unknown", "alt_unknown",
              "initial_unknown", "initial_twice", "dup_vehicle_id", "no_location", "string_speed", "zero_speed", "huge_numbers",
-             "window_overlap", "start_level_gt_capacity", "mixing_bad", "dur_group_unknown", "matrix_frames_overlap", "max_stops_negative"]
+             "window_overlap", "start_level_gt_capacity", "mixing_bad", "dur_group_unknown", "matrix_frames_overlap", "max_stops_negative",
+             "matrix_vehicle_ghost", "matrix_vehicle_missing", "matrix_vehicle_twice"]
     k = rng.choice(kinds)
     st, ve = m["stops"], m["vehicles"]
     s0 = rng.choice(st) if st else None
@@ -382,6 +396,25 @@ def mutate(rng, inp):
         fr.append({"start_time": rfc(T0 + 2400), "end_time": rfc(T0 + 6000), "scaling_factor": 1.2})
     elif k == "max_stops_negative" and v0:
         v0["max_stops"] = -1
+    elif k.startswith("matrix_vehicle_") and ve:
+        # per-vehicle duration matrices whose vehicle ids do not cover the vehicles exactly
+        dm = m.get("duration_matrix")
+        if not (isinstance(dm, list) and dm and isinstance(dm[0], dict)):
+            n_ = len(st) + len(m.get("alternate_stops", [])) + 2 * len(ve)
+            one = dm if isinstance(dm, dict) else {"default_matrix": dm if isinstance(dm, list) and dm else
+                                                   [[0 if i == j else 60 for j in range(n_)] for i in range(n_)]}
+            dm = [dict(one, vehicle_ids=[v["id"] for v in ve])]
+            m["duration_matrix"] = dm
+        ids = dm[rng.randrange(len(dm))]["vehicle_ids"]
+        if k == "matrix_vehicle_ghost" and ids:
+            ids[rng.randrange(len(ids))] = "ghost"       # same number of ids, one real vehicle without a matrix
+        elif k == "matrix_vehicle_missing" and ids:
+            del ids[rng.randrange(len(ids))]
+        else:
+            ids.append(ve[0]["id"])
+        if rng.random() < 0.7:
+            for v in ve:
+                v.pop("speed", None)                     # no fallback for the vehicle that lost its matrix
     return m, k
 
 
